@@ -15,10 +15,10 @@
    * the shared / swiss variants (one exclusive resource per thread): covered by monitors over real threads only;
    * "keeps its contents" is proved as: every store the resource performs lies inside one of its own bookkeeping
      arrays and is disjoint from every live block (the model has no byte memory);
-   * move: move-assignment into a prepared target is the identity on the state (all theorems cover it); move
-     CONSTRUCTION does not carry _upstream over: c06_release_right_upstream_partial is stated for histories without
-     it and c06_move_ctor_refuted exhibits the failing history (replayed on the real class by the check, recorded
-     in KNOWN_FINDINGS.txt under sig=move-ctor-drops-upstream). *)
+   * move: move-assignment into a prepared target is the identity on the state; move construction keeps the
+     whole state including _upstream (Gen.move_swaps_upstream is regenerated from operator=(&&): the swap of
+     _upstream was missing before /repo commit 2947382 - KNOWN_FINDINGS.txt `fixed:` - and a revert breaks the
+     translator target).  All theorems quantify over histories that contain both kinds of move. *)
 From Coq Require Import ZArith List.
 Require Import Verif.Gen.Gen_memory_resource Verif.MR.MRModel Verif.MR.MRProofs.
 Import ListNotations.
@@ -72,30 +72,22 @@ Theorem c06_release_exact : forall P, page_size_ok P -> forall s, reach P s ->
 Proof. exact mr_release_exact. Qed.
 Print Assumptions c06_release_exact.
 
-(* ... to the upstream each block came from - for histories without move construction *)
-Theorem c06_release_right_upstream_partial : forall P s, reach_nm P s ->
+(* ... to the upstream each block came from (all histories, moves included) *)
+Theorem c06_release_right_upstream : forall P s, reach P s ->
   Forall (fun e => fst (fst (fst e)) = up s) (gups s).
 Proof. exact mr_release_right_upstream. Qed.
-Print Assumptions c06_release_right_upstream_partial.
+Print Assumptions c06_release_right_upstream.
 
 (* afterwards the resource is reusable and its accounting is zero: it is the initial state again *)
-Theorem c06_release_reusable : forall P, page_size_ok P -> forall s, reach_nm P s ->
+Theorem c06_release_reusable : forall P, page_size_ok P -> forall s, reach P s ->
   fst (fst (step P s Release)) = init.
 Proof. exact mr_release_init. Qed.
 Print Assumptions c06_release_reusable.
-
-(* the full statement ("every oversize block to the upstream resource") is false with move construction:
-   allocate(129, 8) on a resource with page size 128 and a configured upstream; move-construct; release. *)
-Theorem c06_move_ctor_refuted :
-  ops_ok 128 init witness_ops /\
-  exists p b a, In (EUpAlloc 1 p b a) (trace 128 witness_ops) /\ In (EUpFree 0 p b a) (trace 128 witness_ops).
-Proof. exact mr_move_ctor_refuted. Qed.
-Print Assumptions c06_move_ctor_refuted.
 
 (* non-vacuity: real page sizes satisfy the hypothesis, fresh oracles exist, non-trivial states are reachable *)
 Example c06_params_4096 : page_size_ok 4096.
 Proof. exists 12. split; [split; discriminate|reflexivity]. Qed.
 Example c06_oracle_satisfiable : oracle_ok 128 init 129 8 witness_oracle.
 Proof. apply witness_oracle_ok; [exists 3; split; [split; discriminate|reflexivity]|discriminate|split; [discriminate|reflexivity]]. Qed.
-Example c06_reach_nontrivial : exists s, reach 128 s /\ length (blocks s) = 1%nat /\ length (gups s) = 1%nat.
+Example c06_reach_nontrivial : exists s, reach 128 s /\ length (blocks s) = 1%nat /\ length (gups s) = 1%nat /\ up s = 1.
 Proof. exact witness_reach. Qed.
